@@ -1,4 +1,5 @@
-(** C21 property theorems.  [trun eager sync reqs tmo abt (tst0 tmo) ops] is the channel model of Model.v on ANY request stream [reqs]
+(** C21 property theorems.  [srun eager sync reqs tmo abt (sst0 tmo) ops] is the channel model of Model.v, behind a socket
+    that delivers the peer's bytes and the peer's close only while the channel lets the transport read, on ANY request stream [reqs]
     (any number of pipelined requests, with or without bodies, any lengths, any process() scripts, persistent or
     "Connection: close"), ANY idle timeout [tmo] / [abt] with the clock advancing by any amounts ([Tick]), ANY
     eager-read limit and ANY history [ops] (bytes arriving in any cuts, transport pause / resume, connection loss,
@@ -18,20 +19,20 @@ Import ListNotations.
     order, Deferreds fire only once, only after completion, with the matching value, and none is left waiting at
     the end of any operation) *)
 Theorem log_accepted_by_protocol_monitor : forall (eager : N) (sync : bool) (reqs : list reqspec) (tmo abt : option N) (ops : list top),
-  mon_ops mon0 (snd (trun eager sync reqs tmo abt (tst0 tmo) ops)) <> None.
+  mon_ops mon0 (snd (srun eager sync reqs tmo abt (sst0 tmo) ops)) <> None.
 Proof. exact final_accepted. Qed.
 Print Assumptions log_accepted_by_protocol_monitor.
 
 (** at every point of every history at most one request is in the application (handed over and not finished) *)
 Theorem at_most_one_request_in_application : forall (eager : N) (sync : bool) (reqs : list reqspec) (tmo abt : option N) (ops : list top) (A B : list ev),
-  concat (snd (trun eager sync reqs tmo abt (tst0 tmo) ops)) = A ++ B ->
+  concat (snd (srun eager sync reqs tmo abt (sst0 tmo) ops)) = A ++ B ->
   forall i i', In (EProcess i) A -> ~ In (EEnd i) A -> In (EProcess i') A -> ~ In (EEnd i') A -> i = i'.
 Proof. exact final_one_open. Qed.
 Print Assumptions at_most_one_request_in_application.
 
 (** request j is handed over exactly after requests 0..j-1, and only when each of them has finished *)
 Theorem next_only_after_previous_finished : forall (eager : N) (sync : bool) (reqs : list reqspec) (tmo abt : option N) (ops : list top) A j B,
-  concat (snd (trun eager sync reqs tmo abt (tst0 tmo) ops)) = A ++ EProcess j :: B ->
+  concat (snd (srun eager sync reqs tmo abt (sst0 tmo) ops)) = A ++ EProcess j :: B ->
   (forall i, i < j <-> In (EProcess i) A) /\ (forall i, i < j -> In (EEnd i) A).
 Proof. exact final_next. Qed.
 Print Assumptions next_only_after_previous_finished.
@@ -40,7 +41,7 @@ Print Assumptions next_only_after_previous_finished.
     are finished, before response i is finished; the head comes first and once: responses are on the wire in
     request order and never interleaved *)
 Theorem responses_in_request_order_not_interleaved : forall (eager : N) (sync : bool) (reqs : list reqspec) (tmo abt : option N) (ops : list top) A e B i,
-  concat (snd (trun eager sync reqs tmo abt (tst0 tmo) ops)) = A ++ e :: B ->
+  concat (snd (srun eager sync reqs tmo abt (sst0 tmo) ops)) = A ++ e :: B ->
   e = EHead i \/ (exists j, e = EWrite i j) \/ e = EEnd i ->
   In (EProcess i) A /\ ~ In (EEnd i) A /\ (forall k, k < i -> In (EEnd k) A) /\
   (e = EHead i -> ~ In (EHead i) A) /\ (e <> EHead i -> In (EHead i) A).
@@ -49,7 +50,7 @@ Print Assumptions responses_in_request_order_not_interleaved.
 
 (** once the connection is gone (EGone = HTTPChannel.connectionLost) no request is handed to the application *)
 Theorem no_request_handed_over_after_connection_lost : forall (eager : N) (sync : bool) (reqs : list reqspec) (tmo abt : option N) (ops : list top) A j B,
-  concat (snd (trun eager sync reqs tmo abt (tst0 tmo) ops)) = A ++ EProcess j :: B -> ~ In EGone A.
+  concat (snd (srun eager sync reqs tmo abt (sst0 tmo) ops)) = A ++ EProcess j :: B -> ~ In EGone A.
 Proof. exact final_gone. Qed.
 Print Assumptions no_request_handed_over_after_connection_lost.
 
@@ -59,10 +60,10 @@ Print Assumptions no_request_handed_over_after_connection_lost.
     (failure); (3) at the end of every operation, every Deferred handed out so far whose request has finished or
     lost its connection so far has fired (exactly once) *)
 Theorem notifyFinish_fires_exactly_once_with_None_or_failure : forall (eager : N) (sync : bool) (reqs : list reqspec) (tmo abt : option N) (ops : list top),
-  (forall A B i d, concat (snd (trun eager sync reqs tmo abt (tst0 tmo) ops)) = A ++ B -> count_fired A i d <= 1) /\
-  (forall A i d (ok : bool) B, concat (snd (trun eager sync reqs tmo abt (tst0 tmo) ops)) = A ++ EFired i d ok :: B ->
+  (forall A B i d, concat (snd (srun eager sync reqs tmo abt (sst0 tmo) ops)) = A ++ B -> count_fired A i d <= 1) /\
+  (forall A i d (ok : bool) B, concat (snd (srun eager sync reqs tmo abt (sst0 tmo) ops)) = A ++ EFired i d ok :: B ->
      In (ENotify i d) A /\ (if ok then In (EEnd i) A else In (ELost i) A) /\ count_fired A i d = 0) /\
-  (forall k i d, let A := concat (firstn k (snd (trun eager sync reqs tmo abt (tst0 tmo) ops))) in
+  (forall k i d, let A := concat (firstn k (snd (srun eager sync reqs tmo abt (sst0 tmo) ops))) in
      In (ENotify i d) A -> In (EEnd i) A \/ In (ELost i) A -> count_fired A i d = 1).
 Proof. exact final_notify. Qed.
 Print Assumptions notifyFinish_fires_exactly_once_with_None_or_failure.
@@ -70,24 +71,36 @@ Print Assumptions notifyFinish_fires_exactly_once_with_None_or_failure.
 (** pause / resume bookkeeping: whenever the channel is idle (no request being handled) and the transport is not
     asking it to wait, reading from the transport is not paused *)
 Theorem reading_resumed_when_idle : forall (eager : N) (sync : bool) (reqs : list reqspec) (tmo abt : option N) (ops : list top),
-  s_handling (t_st (fst (trun eager sync reqs tmo abt (tst0 tmo) ops))) = false -> s_waiting (t_st (fst (trun eager sync reqs tmo abt (tst0 tmo) ops))) = false ->
-  net_paused false (concat (snd (trun eager sync reqs tmo abt (tst0 tmo) ops))) = false.
+  s_handling (t_st (k_t (fst (srun eager sync reqs tmo abt (sst0 tmo) ops)))) = false -> s_waiting (t_st (k_t (fst (srun eager sync reqs tmo abt (sst0 tmo) ops)))) = false ->
+  net_paused false (concat (snd (srun eager sync reqs tmo abt (sst0 tmo) ops))) = false.
 Proof. exact final_reading. Qed.
 Print Assumptions reading_resumed_when_idle.
+
+(** the peer behind a socket: the transport's reading state is exactly what the pause / resume events of the log say;
+    and at the end of every history in which reading is not paused, no byte the peer sent is waiting undelivered, and if
+    the peer has closed the connection, connectionLost has been delivered (EGone is in the log) - so, by the theorem
+    above, every notifyFinish Deferred of the request that was being handled has fired with a failure *)
+Theorem peer_close_noticed_whenever_reading : forall (eager : N) (sync : bool) (reqs : list reqspec) (tmo abt : option N) (ops : list top),
+  let k := fst (srun eager sync reqs tmo abt (sst0 tmo) ops) in
+  let log := concat (snd (srun eager sync reqs tmo abt (sst0 tmo) ops)) in
+  k_paused k = net_paused false log /\
+  (net_paused false log = false -> k_queued k = 0%N /\ (In (Op Lose) ops -> In EGone log)).
+Proof. exact final_peer_close. Qed.
+Print Assumptions peer_close_noticed_whenever_reading.
 
 (** liveness of the pipeline: the bytes consumed are exactly the requests handed over, and whenever the channel is
     idle (nothing being handled, connection neither lost nor closing) the next request of the stream has NOT been
     completely received — a completely received request is never held back *)
 Theorem idle_channel_holds_no_complete_request_back : forall (eager : N) (sync : bool) (reqs : list reqspec) (tmo abt : option N) (ops : list top),
   Forall (fun q => (0 < q_len q)%N) reqs ->
-  let s := t_st (fst (trun eager sync reqs tmo abt (tst0 tmo) ops)) in
+  let s := t_st (k_t (fst (srun eager sync reqs tmo abt (sst0 tmo) ops))) in
   s_cons s = sumlen (firstn (length (s_rq s)) reqs) /\
   (s_handling s = false /\ s_lost s = false /\ s_closing s = false ->
    match nth_error reqs (length (s_rq s)) with
    | Some q => (s_recv s < s_cons s + q_len q)%N
    | None => True
    end).
-Proof. intros eager sync reqs tmo abt ops Hpos. exact (trun_live eager sync reqs tmo abt ops _ (live0 reqs tmo Hpos)). Qed.
+Proof. exact final_live. Qed.
 Print Assumptions idle_channel_holds_no_complete_request_back.
 
 (** the code before the repair: finish, then notifyFinish() queues a Deferred that nothing will fire — the
@@ -102,13 +115,13 @@ Print Assumptions notifyFinish_after_completion_refuted_for_unrepaired_notifyFin
     once; the first request's Deferred, when it fires, drops the connection, calls finish() and asks for another one;
     and an idle timeout that fires while half a request is buffered *)
 Example pipeline_example :
-  snd (trun 16384 true [mkQ 37 true false [ANotify [RLose; RFinish; RNotify]]; mkQ 37 true true [ANotify [RNotify]];
-                        mkQ 56 false false [AFinish]] (Some 5%N) (Some 3%N) (tst0 (Some 5%N))
+  snd (srun 16384 true [mkQ 37 true false [ANotify [RLose; RFinish; RNotify]]; mkQ 37 true true [ANotify [RNotify]];
+                        mkQ 56 false false [AFinish]] (Some 5%N) (Some 3%N) (sst0 (Some 5%N))
             [Op (Data 74); Op (App 0 AWrite); Op TPause; Tick 100; Op (App 0 AFinish); Op (Data 56); Op (App 1 AFinish)])
   = [[EProcess 0; ENotify 0 0]; [EHead 0; EWrite 0 0]; []; [];
      [EEnd 0; EProcess 1; ENotify 1 0; EFired 0 0 true; EClose; EGone; ELost 1; EFired 1 0 false; ENotify 1 1; EFired 1 1 false;
       ENotify 0 1; EFired 0 1 true]; []; [ERaise]] /\
-  snd (trun 16384 false [mkQ 37 true false [AFinish]; mkQ 37 true false []] (Some 5%N) (Some 3%N) (tst0 (Some 5%N))
+  snd (srun 16384 false [mkQ 37 true false [AFinish]; mkQ 37 true false []] (Some 5%N) (Some 3%N) (sst0 (Some 5%N))
             [Op (Data 50); Tick 4; Tick 1; Tick 3; Op Lose])
   = [[EProcess 0; EHead 0; EEnd 0; ENetResume]; []; [EClose]; [EAbort]; [EGone]].
 Proof. vm_compute. split; reflexivity. Qed.
